@@ -208,7 +208,8 @@ fn dup_survivors_violation(old: &[T], new: &[T]) -> Option<String> {
 fn subsequences(l: &[T]) -> Vec<Vec<T>> {
     (0..(1u32 << l.len())).map(|m| l.iter().enumerate().filter(|(i, _)| m & (1 << i) != 0).map(|(_, x)| x.clone()).collect()).collect()
 }
-fn distinct_lists(maxlen: usize) -> Vec<Vec<T>> { distinct_lists_from(maxlen, vec![S::Mem(1), S::Mem(2), S::Feed(1), S::Delay { len: 1 }, S::Delay { len: 2 }, S::Mem(3)]) }
+// pairwise distinct shapes, INCLUDING zero-sized ones (a unit-typed cell, an empty call): they share their address with the next child
+fn distinct_lists(maxlen: usize) -> Vec<Vec<T>> { distinct_lists_from(maxlen, vec![S::Mem(1), S::Mem(2), S::Feed(1), S::Delay { len: 1 }, S::Mem(0), fc(vec![]), S::Delay { len: 2 }]) }
 /// children that are function calls of SIMILAR but pairwise distinct shape (they share leaves, so their pair scores are
 /// positive and larger than the score of an exact leaf pair), next to plain leaves
 fn similar_pool() -> Vec<T> {
